@@ -990,6 +990,22 @@ pub fn unobtainable_cases(report: &mut Report, id: &str) -> u64 {
             }
         }
     }
+    // the IRR goes away in the middle of an evaluation (TCP reset instead of the answer to a route query):
+    // the prefix data could not be obtained, so the evaluation must fail - a smaller set would shrink the policy
+    for (q, what) in [("!gAS65002", "connection reset at an IPv4 route query"), ("!6AS65001", "connection reset at an IPv6 route query"), ("!iAS-A", "connection reset at the as-set query")] {
+        for expr in ["(AS-A OR AS-B)"] {
+            n += 1;
+            irrd.set_plan(Plan { faults: vec![], fault_on_query: vec![(q.into(), Fault::Reset)] });
+            let r = evaluate_in_subprocess(irrd.port, expr, Duration::from_secs(3));
+            let case = json!({"expression": expr, "condition": what});
+            match r {
+                Ok(ranges) => report.violation(&format!("{id}:evaluation-succeeds-without-data:{}", what.replace(' ', "-")), &format!("'{expr}' with a {what} evaluated to {} ranges instead of failing", ranges.len()), case),
+                Err(e) if e == "TIMEOUT" => report.observe(&format!("evaluation does not terminate after a {what} (irrc dependency spins); nothing is sent in that case")),
+                Err(_) => {}
+            }
+        }
+    }
+    irrd.set_plan(Plan::default());
     // IRR unreachable: nothing listening
     n += 1;
     let dead_port = { let l = std::net::TcpListener::bind("127.0.0.1:0").unwrap(); l.local_addr().unwrap().port() };
